@@ -529,10 +529,12 @@ def r4_history_time_units(ctx, rid):
 def r5_default_history_interpolates(ctx, rid):
     """During run() the history handed to the compiled function is a DDEHistory: delayed terms read the true past only if its
     lookup clamps and interpolates between the neighbouring records for ANY query order (same rule as C19-R5), and if it
-    records what it is given (C19-R2)."""
-    from .c19 import r5_query, r2_state_advances_together
+    records what it is given (C19-R2), as copies (C19-R1), and keeps the records across buffer growth (C19-R4)."""
+    from .c19 import r5_query, r2_state_advances_together, r1_records_are_copies, r4_growth_keeps_records
     r5_query(ctx, rid)
     r2_state_advances_together(ctx, rid)
+    r1_records_are_copies(ctx, rid)         # what is recorded is a copy that later steps / a buffer growth cannot change ...
+    r4_growth_keeps_records(ctx, rid)       # ... and a growth of the buffer keeps row k under time k (runs longer than the first capacity)
     # the object handed out as default history is a DDEHistory of the initial state
     f = ctx.repo.get_func(S.BASE_REL, "BaseBackend.get_hist_func")
     rets = [n for n in walk_shallow(f.node) if isinstance(n, ast.Return)]
